@@ -93,6 +93,15 @@ def _h(*parts):
     return h.hexdigest()[:16]
 
 
+def static_inits(path):
+    out = []
+    for ln in open(path):
+        m = re.match(r"\s*//\s*@static_init\s+(.*)$", ln)
+        if m:
+            out += m.group(1).split()
+    return out
+
+
 def build_slice(path, entries, tier, log):
     """-> (ll_path, workdir, info)"""
     lib = P.build_lib(log=log)
@@ -119,7 +128,18 @@ def build_slice(path, entries, tier, log):
     txt = P.run([P.LLVM_DIS, linked + ".1", "-o", "-"])
     m = re.search(r"^@llvm\.global_ctors = .*$", txt, re.M)
     if m:
-        txt = txt.replace(m.group(0), "")
+        # keep only the static initialisers the harness asked for (@static_init <TU file names>) and its own
+        keep = []
+        wanted = static_inits(path) + [os.path.basename(path)]
+        for e in re.findall(r"\{ i32 \d+, void \(\)\* @[^,]+, i8\* [^}]*\}", m.group(0)):
+            fn = re.search(r"@([^, ]+)", e).group(1).strip('"')
+            if any(fn == "_GLOBAL__sub_I_" + w for w in wanted):
+                keep.append(e)
+        if keep:
+            line = "@llvm.global_ctors = appending global [%d x { i32, void ()*, i8* }] [%s]" % (len(keep), ", ".join("{ i32, void ()*, i8* } " + k for k in keep))
+        else:
+            line = ""
+        txt = txt.replace(m.group(0), line)
     tmp = os.path.join(wd, "noctor.ll")
     open(tmp, "w").write(txt)
     P.run([P.OPT, "-passes=internalize,globaldce", "-internalize-public-api-list=" + api, tmp, "-S", "-o", ll + ".tmp"])
